@@ -84,9 +84,12 @@ fn ref_point(w: &BigUint, e: u32, idx: u64) -> BigUint {
 }
 
 fn point_indices(e: u32) -> Vec<u64> {
+    point_indices_upto(e, 10)
+}
+fn point_indices_upto(e: u32, all_upto: u32) -> Vec<u64> {
     let max: u64 = if e == 64 { u64::MAX } else { (1u64 << e) - 1 };
     let mut v: Vec<u64> = Vec::new();
-    if e <= 10 {
+    if e <= all_upto {
         v.extend(0..=max);
     } else {
         v.push(0);
@@ -140,11 +143,18 @@ pub fn run(ctx: &Ctx) -> Report {
     rep.trust("Poseidon (starknet-crypto); num-bigint arithmetic for the reference model");
     let mut r0 = ctx.rng(0x1000);
     let seedf = r0.felt();
-    let states = [(Felt::ZERO, 0u64), (seedf, 0), (seedf, 7)];
+    let quick = ctx.quick();
+    let mut states = vec![(Felt::ZERO, 0u64), (seedf, 0), (seedf, 7)];
+    if !quick {
+        states.push((r0.felt(), 0));
+        states.push((r0.felt(), 1));
+        states.push((Felt::ONE, u32::MAX as u64));
+    }
+    let small_e = if quick { 3 } else { 6 };
     let mut cases: Vec<(u32, u64, usize)> = Vec::new();
     for e in 1..=64u32 {
         let mut counts: Vec<u64> = vec![0, 1, 2, 3, 5, 8, 48];
-        if e <= 3 {
+        if e <= small_e {
             counts.extend(0..=(2 * (1u64 << e) + 1));
         }
         counts.sort();
@@ -180,7 +190,7 @@ pub fn run(ctx: &Ctx) -> Report {
     let pres: Vec<(u32, (String, Option<String>), usize)> = (1..=64u32)
         .into_par_iter()
         .map(|e| {
-            let idx = point_indices(e);
+            let idx = point_indices_upto(e, if quick { 10 } else { 14 });
             (e, points_case(e, &idx), idx.len())
         })
         .collect();
@@ -196,7 +206,7 @@ pub fn run(ctx: &Ctx) -> Report {
     }
     #[cfg(feature = "full")]
     recorded(ctx, &mut rep);
-    rep.bound_completed = "domain exponents 1..=64 complete; count menu; 3 transcript states".into();
+    rep.bound_completed = format!("domain exponents 1..=64 complete; count menu (+ every count up to 2*2^e+1 for e<={}); {} transcript states; every index for e<={}", small_e, states.len(), if quick { 10 } else { 14 });
     rep
 }
 
